@@ -40,7 +40,9 @@ def to_py(v):
         if '$dict' in v:
             return {k if isinstance(k, str) else to_py(k): to_py(x) for k, x in v['$dict']}
         if '$enum' in v:
-            return ('$enum', to_py(v['$enum'][0]), v['$enum'][1])
+            from frappy.lib.enum import Enum
+            name = to_py(v['$enum'][0]) or 'x'
+            return Enum('replay', **{name: v['$enum'][1]})[name]
         if '$set' in v:
             raise ValueError('set value not reconstructible')
         if '$obj' in v or '$cls' in v:
@@ -78,94 +80,114 @@ def old_exprs(text):
     return out
 
 
+def attempt(req, cmod, c, member_expr):
+    out = {'built': False, 'violated': [], 'clauses': {}}
+    model = req['model']
+    F = {}
+    args = {}
+    for k, v in model.items():
+        if k.startswith('self.'):
+            try:
+                F[k[5:]] = to_py(v)
+            except ValueError:
+                pass
+        elif k != 'self' and not k.startswith('closure.'):
+            args[k] = to_py(v)
+    mod, fn = resolve(c['file'], c['func'])
+    import frappy.errors
+    ns = dict(vars(frappy.errors))
+    ns.update(vars(cmod))
+    ns.update({k: v for k, v in vars(mod).items() if not k.startswith('__')})
+    ns['F'] = F
+    if member_expr is not None:
+        ns['MEMBER'] = eval(member_expr, ns)
+        nmem = len(model.get('self.members', {}).get('$tuple', [])) if isinstance(model.get('self.members'), dict) else 1
+        ns['MEMBERS'] = [eval(member_expr, ns) for _ in range(max(nmem, 1))]
+        out['member'] = member_expr
+    selfobj = None
+    if c.get('witness'):
+        selfobj = eval(c['witness'], ns)
+    out['built'] = True
+    env = dict(args)
+    if selfobj is not None:
+        env['self'] = selfobj
+    case = req.get('case', 'contract')
+    if case == 'contract':
+        ens, rai, extra = c.get('ensures', {}), c.get('raises', {}), []
+    else:
+        lem = c['lemmas'][case]
+        ens, rai, extra = lem.get('ensures', {}), lem.get('raises', 'never'), lem.get('requires', [])
+    # preconditions must hold natively, else the model does not transfer (A1, uninterpreted parts)
+    pre_ok = True
+    for text in list(c.get('requires', [])) + list(c.get('assumes', [])) + list(extra):
+        try:
+            if not eval(text, ns, dict(env)):
+                pre_ok = False
+        except Exception:
+            pre_ok = False
+    out['pre_ok'] = pre_ok
+    olds = {}
+    for text in list(ens.values()) + (list(rai.values()) if isinstance(rai, dict) else []):
+        for oe in old_exprs(text):
+            olds[oe] = copy.deepcopy(eval(oe, ns, dict(env)))
+    call_args = dict(args)
+    out['args'] = {k: repr(v) for k, v in call_args.items()}
+    out['receiver'] = repr(selfobj)
+    try:
+        if selfobj is not None:
+            result = fn(selfobj, **call_args)
+        else:
+            result = fn(**call_args)
+        out['outcome'] = 'ret'
+        out['result'] = repr(result)
+        env['result'] = result
+        clauses = ens
+        if rai == 'must':
+            out['violated'].append('must-raise')
+    except Exception as e:      # the real code raised
+        out['outcome'] = 'exc'
+        out['exc'] = f'{type(e).__name__}: {e}'
+        env['exc'] = type(e)
+        env['excval'] = e
+        clauses = rai if isinstance(rai, dict) else {}
+        if rai == 'never':
+            out['violated'].append('never-raises')
+    for name, text in clauses.items():
+        t = text
+        for oe, val in olds.items():
+            key = f'__old{abs(hash(oe))}'
+            env[key] = val
+            t = t.replace(f'old({oe})', key)
+        try:
+            ok = bool(eval(t, ns, dict(env)))
+            out['clauses'][name] = ok
+            if not ok:
+                out['violated'].append(('ensures.' if out['outcome'] == 'ret' else 'raises.') + name)
+        except Exception as e:
+            out['clauses'][name] = f'error: {type(e).__name__}: {e}'
+            out['violated'].append(('ensures.' if out['outcome'] == 'ret' else 'raises.') + name)
+    return out
+
+
 def main():
     req = json.load(sys.stdin)
     out = {'built': False, 'violated': [], 'clauses': {}}
     try:
         cmod = load_module(req['contract_file'])
         c = [x for x in cmod.CONTRACTS if x['key'] == req['key']][0]
-        model = req['model']
-        F = {}
-        args = {}
-        for k, v in model.items():
-            if k.startswith('self.'):
-                try:
-                    F[k[5:]] = to_py(v)
-                except ValueError:
-                    pass
-            elif k != 'self' and not k.startswith('closure.'):
-                args[k] = to_py(v)
-        mod, fn = resolve(c['file'], c['func'])
-        ns = dict(vars(cmod))
-        ns.update({k: v for k, v in vars(mod).items() if not k.startswith('__')})
-        ns['F'] = F
-        selfobj = None
-        if c.get('witness'):
-            selfobj = eval(c['witness'], ns)
-        if req.get('fixup'):
-            exec(req['fixup'], ns, {'self': selfobj, 'args': args, 'F': F})
-        out['built'] = True
-        env = dict(args)
-        if selfobj is not None:
-            env['self'] = selfobj
-        case = req.get('case', 'contract')
-        if case == 'contract':
-            ens, rai, extra = c.get('ensures', {}), c.get('raises', {}), []
-        else:
-            lem = c['lemmas'][case]
-            ens, rai, extra = lem.get('ensures', {}), lem.get('raises', 'never'), lem.get('requires', [])
-        # preconditions must hold natively, else the model does not transfer (A1, uninterpreted parts)
-        pre_ok = True
-        for text in list(c.get('requires', [])) + list(extra):
+        members = [None]
+        if c.get('witness') and 'MEMBER' in c['witness']:
+            members = list(getattr(cmod, 'CATALOGUE', []))
+        tried = []
+        for mexpr in members:
             try:
-                if not eval(text, ns, dict(env)):
-                    pre_ok = False
-            except Exception:
-                pre_ok = False
-        out['pre_ok'] = pre_ok
-        olds = {}
-        for text in list(ens.values()) + (list(rai.values()) if isinstance(rai, dict) else []):
-            for oe in old_exprs(text):
-                olds[oe] = copy.deepcopy(eval(oe, ns, dict(env)))
-        ns['old'] = None
-        call_args = dict(args)
-        try:
-            if selfobj is not None:
-                result = fn(selfobj, **call_args)
-            else:
-                result = fn(**call_args)
-            out['outcome'] = 'ret'
-            out['result'] = repr(result)
-            env['result'] = result
-            clauses = ens
-            if rai == 'must':
-                out['violated'].append('must-raise')
-        except Exception as e:      # the real code raised
-            out['outcome'] = 'exc'
-            out['exc'] = f'{type(e).__name__}: {e}'
-            env['exc'] = type(e)
-            env['excval'] = e
-            clauses = rai if isinstance(rai, dict) else {}
-            if rai == 'never':
-                out['violated'].append('never-raises')
-
-        class _Old:
-            def __call__(self, x):
-                raise RuntimeError('old() must be pre-evaluated')
-        for name, text in clauses.items():
-            t = text
-            for oe, val in olds.items():
-                key = f'__old{abs(hash(oe))}'
-                env[key] = val
-                t = t.replace(f'old({oe})', key)
-            try:
-                ok = bool(eval(t, ns, dict(env)))
-                out['clauses'][name] = ok
-                if not ok:
-                    out['violated'].append(('ensures.' if out['outcome'] == 'ret' else 'raises.') + name)
+                out = attempt(req, cmod, c, mexpr)
             except Exception as e:
-                out['clauses'][name] = f'error: {type(e).__name__}: {e}'
-                out['violated'].append(('ensures.' if out['outcome'] == 'ret' else 'raises.') + name)
+                out = {'built': False, 'violated': [], 'clauses': {}, 'error': f'{type(e).__name__}: {e}', 'member': mexpr}
+            tried.append(mexpr)
+            if out.get('built') and out.get('pre_ok') and out.get('violated'):
+                break
+        out['members_tried'] = tried
     except Exception as e:
         out['error'] = f'{type(e).__name__}: {e}'
         out['trace'] = traceback.format_exc()[-1500:]
